@@ -18,6 +18,11 @@
       between depends on them (they can only increment recvIdle);
     - the last Write of a reply and sendMu.Unlock are separate steps; one Write
       call of net.Buffers.WriteTo is one chunk on the wire.
+    Send errors: the environment may close the peer's read side at any time
+    ([LBreak]); from then on every Write fails ([LSendFail]: WriteTo stops at the
+    first error, send returns ConnError, handleRequest unlocks sendMu and only logs
+    it - one step, nothing observable lies in between), nothing more reaches the
+    wire, and the goroutine carries on exactly as after a good send.
     StartTag, TagDone (capture), ClearTag are separate steps (each is one tagMu
     critical section), so a ClearTag of another goroutine may fall between the
     StartTag and the capture of a flush.  The backend is any number of calls per
@@ -49,7 +54,8 @@ Inductive rpc :=
 | RRet (r : reply)                        (* handle returned r *)
 | RClr (r : reply)                        (* ClearTag done (or reject path), before sendMu.Lock *)
 | RSend (r : reply) (k : nat)             (* sendMu locked by this goroutine, k chunks written *)
-| RDone (r : reply).                      (* sendMu unlocked, goroutine loops *)
+| RDone (r : reply)                       (* sendMu unlocked, goroutine loops *)
+| RDoneF (r : reply).                     (* a Write failed: send returned ConnError (only logged), sendMu unlocked, goroutine loops *)
 
 Record state := mkState {
   nrecv : nat;                 (* frames consumed *)
@@ -62,11 +68,13 @@ Record state := mkState {
   closed : nat -> bool;        (* closed channels *)
   sendmu : option nat;         (* sendMu holder *)
   wire : list (nat * nat);     (* chunks written to r: (request, chunk index) *)
-  replies : list (nat * reply) (* ghost: completed sends in order *)
+  replies : list (nat * reply); (* ghost: completed sends in order *)
+  wbroken : bool;              (* the peer closed its read side: every later Write fails *)
+  torn : list (nat * nat)      (* ghost: chunks of sends that failed half way *)
 }.
 
 Definition init : state :=
-  mkState 0 false false 1 0 (fun _ => RNone) (fun _ => None) (fun _ => false) None [] [].
+  mkState 0 false false 1 0 (fun _ => RNone) (fun _ => None) (fun _ => false) None [] [] false [].
 
 Definition upd {A} (f : nat -> A) (i : nat) (x : A) : nat -> A :=
   fun j => if Nat.eqb j i then x else f j.
@@ -74,7 +82,7 @@ Definition updN {A} (f : N -> A) (t : N) (x : A) : N -> A :=
   fun u => if N.eqb u t then x else f u.
 
 Definition set_pc (s : state) (i : nat) (p : rpc) : state :=
-  mkState (nrecv s) (shut s) (recvmu s) (nnew s) (nidle s) (upd (pc s) i p) (tags s) (closed s) (sendmu s) (wire s) (replies s).
+  mkState (nrecv s) (shut s) (recvmu s) (nnew s) (nidle s) (upd (pc s) i p) (tags s) (closed s) (sendmu s) (wire s) (replies s) (wbroken s) (torn s).
 
 Inductive label :=
 | LInc                       (* atomic.AddInt32(&recvIdle, 1) *)
@@ -89,7 +97,9 @@ Inductive label :=
 | LClear (i : nat)           (* ClearTag(tag) *)
 | LLock (i : nat)            (* sendMu.Lock *)
 | LChunk (i : nat)           (* one Write of the vectored send *)
-| LUnlock (i : nat).         (* sendMu.Unlock; registry put; loop *)
+| LUnlock (i : nat)          (* sendMu.Unlock; registry put; loop *)
+| LBreak                     (* environment: the peer closes its read side *)
+| LSendFail (i : nat).       (* the next Write fails: WriteTo returns the error, send returns ConnError; sendMu.Unlock; log; loop *)
 
 Definition is_none {A} (o : option A) : bool := match o with None => true | Some _ => false end.
 
@@ -98,7 +108,7 @@ Definition exec (inp : list frame) (l : label) (s : state) : option state :=
   | LInc =>
       match nnew s with
       | 0 => None
-      | S n => Some (mkState (nrecv s) (shut s) (recvmu s) n (S (nidle s)) (pc s) (tags s) (closed s) (sendmu s) (wire s) (replies s))
+      | S n => Some (mkState (nrecv s) (shut s) (recvmu s) n (S (nidle s)) (pc s) (tags s) (closed s) (sendmu s) (wire s) (replies s) (wbroken s) (torn s))
       end
   | LRecv =>
       match nidle s with
@@ -106,13 +116,13 @@ Definition exec (inp : list frame) (l : label) (s : state) : option state :=
       | S n =>
           if recvmu s then None
           else if shut s then
-            Some (mkState (nrecv s) true false (nnew s) n (pc s) (tags s) (closed s) (sendmu s) (wire s) (replies s))
+            Some (mkState (nrecv s) true false (nnew s) n (pc s) (tags s) (closed s) (sendmu s) (wire s) (replies s) (wbroken s) (torn s))
           else match nth_error inp (nrecv s) with
                | None => None
                | Some FConn =>
-                   Some (mkState (S (nrecv s)) true false (nnew s) n (upd (pc s) (nrecv s) RConn) (tags s) (closed s) (sendmu s) (wire s) (replies s))
+                   Some (mkState (S (nrecv s)) true false (nnew s) n (upd (pc s) (nrecv s) RConn) (tags s) (closed s) (sendmu s) (wire s) (replies s) (wbroken s) (torn s))
                | Some _ =>
-                   Some (mkState (S (nrecv s)) false true (nnew s) n (upd (pc s) (nrecv s) RGot) (tags s) (closed s) (sendmu s) (wire s) (replies s))
+                   Some (mkState (S (nrecv s)) false true (nnew s) n (upd (pc s) (nrecv s) RGot) (tags s) (closed s) (sendmu s) (wire s) (replies s) (wbroken s) (torn s))
                end
       end
   | LStart i =>
@@ -120,7 +130,7 @@ Definition exec (inp : list frame) (l : label) (s : state) : option state :=
       | RGot, Some (FReq t _) =>
           let b := is_none (tags s t) in
           Some (mkState (nrecv s) (shut s) (recvmu s) (nnew s) (nidle s) (upd (pc s) i (RStarted b))
-                        (if b then updN (tags s) t (Some i) else tags s) (closed s) (sendmu s) (wire s) (replies s))
+                        (if b then updN (tags s) t (Some i) else tags s) (closed s) (sendmu s) (wire s) (replies s) (wbroken s) (torn s))
       | _, _ => None
       end
   | LCapture i =>
@@ -138,13 +148,13 @@ Definition exec (inp : list frame) (l : label) (s : state) : option state :=
       match pc s i, nth_error inp i with
       | RGot, Some (FReject _) =>
           match r_kind r with
-          | RErr => Some (mkState (nrecv s) (shut s) false (sp + nnew s) (nidle s) (upd (pc s) i (RClr r)) (tags s) (closed s) (sendmu s) (wire s) (replies s))
+          | RErr => Some (mkState (nrecv s) (shut s) false (sp + nnew s) (nidle s) (upd (pc s) i (RClr r)) (tags s) (closed s) (sendmu s) (wire s) (replies s) (wbroken s) (torn s))
           | RMatch => None
           end
       | RCaptured true w, Some (FReq _ _) =>
-          Some (mkState (nrecv s) (shut s) false (sp + nnew s) (nidle s) (upd (pc s) i (RRun w)) (tags s) (closed s) (sendmu s) (wire s) (replies s))
+          Some (mkState (nrecv s) (shut s) false (sp + nnew s) (nidle s) (upd (pc s) i (RRun w)) (tags s) (closed s) (sendmu s) (wire s) (replies s) (wbroken s) (torn s))
       | RCaptured false _, Some (FReq _ _) =>
-          Some (mkState (nrecv s) (shut s) false (S (sp + nnew s)) (nidle s) (upd (pc s) i RDropped) (tags s) (closed s) (sendmu s) (wire s) (replies s))
+          Some (mkState (nrecv s) (shut s) false (S (sp + nnew s)) (nidle s) (upd (pc s) i RDropped) (tags s) (closed s) (sendmu s) (wire s) (replies s) (wbroken s) (torn s))
       | _, _ => None
       end
   | LEnter i =>
@@ -175,7 +185,7 @@ Definition exec (inp : list frame) (l : label) (s : state) : option state :=
           match tags s t with
           | Some c =>
               Some (mkState (nrecv s) (shut s) (recvmu s) (nnew s) (nidle s) (upd (pc s) i (RClr r))
-                            (updN (tags s) t None) (upd (closed s) c true) (sendmu s) (wire s) (replies s))
+                            (updN (tags s) t None) (upd (closed s) c true) (sendmu s) (wire s) (replies s) (wbroken s) (torn s))
           | None => None      (* panic("unused tag cleared"): shown unreachable (ClearTag_never_panics) *)
           end
       | _, _ => None
@@ -184,15 +194,15 @@ Definition exec (inp : list frame) (l : label) (s : state) : option state :=
       match pc s i, sendmu s with
       | RClr r, None =>
           Some (mkState (nrecv s) (shut s) (recvmu s) (nnew s) (nidle s) (upd (pc s) i (RSend r 0))
-                        (tags s) (closed s) (Some i) (wire s) (replies s))
+                        (tags s) (closed s) (Some i) (wire s) (replies s) (wbroken s) (torn s))
       | _, _ => None
       end
   | LChunk i =>
       match pc s i with
       | RSend r k =>
-          if Nat.leb k (r_extra r)
+          if Nat.leb k (r_extra r) && negb (wbroken s)
           then Some (mkState (nrecv s) (shut s) (recvmu s) (nnew s) (nidle s) (upd (pc s) i (RSend r (S k)))
-                             (tags s) (closed s) (sendmu s) (wire s ++ [(i, k)]) (replies s))
+                             (tags s) (closed s) (sendmu s) (wire s ++ [(i, k)]) (replies s) (wbroken s) (torn s))
           else None
       | _ => None
       end
@@ -201,7 +211,19 @@ Definition exec (inp : list frame) (l : label) (s : state) : option state :=
       | RSend r k =>
           if Nat.eqb k (S (r_extra r))
           then Some (mkState (nrecv s) (shut s) (recvmu s) (S (nnew s)) (nidle s) (upd (pc s) i (RDone r))
-                             (tags s) (closed s) None (wire s) (replies s ++ [(i, r)]))
+                             (tags s) (closed s) None (wire s) (replies s ++ [(i, r)]) (wbroken s) (torn s))
+          else None
+      | _ => None
+      end
+  | LBreak =>
+      if wbroken s then None
+      else Some (mkState (nrecv s) (shut s) (recvmu s) (nnew s) (nidle s) (pc s) (tags s) (closed s) (sendmu s) (wire s) (replies s) true (torn s))
+  | LSendFail i =>
+      match pc s i with
+      | RSend r k =>
+          if Nat.leb k (r_extra r) && wbroken s
+          then Some (mkState (nrecv s) (shut s) (recvmu s) (S (nnew s)) (nidle s) (upd (pc s) i (RDoneF r))
+                             (tags s) (closed s) None (wire s) (replies s) (wbroken s) (torn s ++ map (pair i) (seq 0 k)))
           else None
       | _ => None
       end
@@ -231,11 +253,11 @@ Definition active (p : rpc) : bool :=          (* tag in cs.tags *)
 Definition running (p : rpc) : bool :=         (* inside handle or between its return and ClearTag *)
   match p with RRun _ | RBack | RRet _ => true | _ => false end.
 Definition cleared (p : rpc) : bool :=         (* past ClearTag / past the reject decision *)
-  match p with RClr _ | RSend _ _ | RDone _ => true | _ => false end.
+  match p with RClr _ | RSend _ _ | RDone _ | RDoneF _ => true | _ => false end.
 Definition returned (p : rpc) : bool :=        (* handle has returned *)
-  match p with RRet _ | RClr _ | RSend _ _ | RDone _ => true | _ => false end.
+  match p with RRet _ | RClr _ | RSend _ _ | RDone _ | RDoneF _ => true | _ => false end.
 Definition final (p : rpc) : bool :=
-  match p with RNone | RConn | RDropped | RDone _ => true | _ => false end.
+  match p with RNone | RConn | RDropped | RDone _ | RDoneF _ => true | _ => false end.
 Definition accepted (p : rpc) : bool := running p || cleared p.
 
 Definition tag_of (f : frame) : option N :=
@@ -246,11 +268,11 @@ Definition wf_pc (f : frame) (p : rpc) : Prop :=
   match f, p with
   | FConn, RConn => True
   | FReject _, RGot => True
-  | FReject _, (RClr r | RSend r _ | RDone r) => r_kind r = RErr
-  | FReq _ KOp, (RGot | RStarted _ | RDropped | RBack | RRet _ | RClr _ | RSend _ _ | RDone _) => True
+  | FReject _, (RClr r | RSend r _ | RDone r | RDoneF r) => r_kind r = RErr
+  | FReq _ KOp, (RGot | RStarted _ | RDropped | RBack | RRet _ | RClr _ | RSend _ _ | RDone _ | RDoneF _) => True
   | FReq _ KOp, (RCaptured _ None | RRun None) => True
   | FReq _ (KFlush _), (RGot | RStarted _ | RCaptured _ _ | RDropped | RRun _) => True
-  | FReq _ (KFlush _), (RRet r | RClr r | RSend r _ | RDone r) => r = rflush_reply
+  | FReq _ (KFlush _), (RRet r | RClr r | RSend r _ | RDone r | RDoneF r) => r = rflush_reply
   | _, _ => False
   end.
 
@@ -276,8 +298,9 @@ Inductive waits_back (s : state) : nat -> Prop :=
     starting or finishing a call, not the idle counter) *)
 Definition progress_label (l : label) : bool :=
   match l with
-  | LStart _ | LCapture _ | LSpawn _ _ | LReturn _ _ | LPass _ | LClear _ | LLock _ | LChunk _ | LUnlock _ => true
-  | LInc | LRecv | LEnter _ | LExit _ => false
+  | LStart _ | LCapture _ | LSpawn _ _ | LReturn _ _ | LPass _ | LClear _ | LLock _ | LChunk _ | LUnlock _
+  | LSendFail _ => true
+  | LInc | LRecv | LEnter _ | LExit _ | LBreak => false
   end.
 
 (** labels of the intake path *)
